@@ -755,8 +755,16 @@ func C05(r *ck.Run) {
 		scn c05Scn
 	}
 	var jobs []job
+	only := os.Getenv("VERIF_C05_ONLY") // development aid: "config-substring/scenario-substring" (an incomplete run, never registered)
 	for _, c := range cfgs {
 		for _, s := range scns {
+			if only != "" {
+				f := strings.SplitN(only, "/", 2)
+				if !strings.Contains(c.String(), f[0]) || (len(f) > 1 && !strings.Contains(s.Name, f[1])) {
+					continue
+				}
+				r.Cap("VERIF_C05_ONLY=" + only)
+			}
 			jobs = append(jobs, job{c, s})
 		}
 	}
